@@ -422,6 +422,11 @@ pub fn model_dump(model: &ContainerModel) -> (Dump, Vec<String>, Vec<(u16, u32)>
 /// `dir_slot`: how many content packs the manifest declares BEFORE the directory pack (0 = the
 /// order every high-level creator uses).
 pub fn build_lowlevel(dir: &Path, name: &str, packs: &[(Comp, Vec<ContentSpec>)], free_data_len: usize, dirspec: &DirSpec, dir_slot: usize) -> Result<Built, Failure> {
+    build_lowlevel_fd(dir, name, packs, &|_| free_data_len, dirspec, dir_slot)
+}
+
+/// as `build_lowlevel`, the free data length chosen per content pack (k = 0 for the first one)
+pub fn build_lowlevel_fd(dir: &Path, name: &str, packs: &[(Comp, Vec<ContentSpec>)], free_data_len: &dyn Fn(usize) -> usize, dirspec: &DirSpec, dir_slot: usize) -> Result<Built, Failure> {
     let path = utf8(&dir.join(name));
     let io = |e: std::io::Error| Failure::new("create-error", format!("low-level container: {e}"));
     let jb = |e: jbk::creator::Error| Failure::new("create-error", format!("low-level container: {e}"));
@@ -440,7 +445,7 @@ pub fn build_lowlevel(dir: &Path, name: &str, packs: &[(Comp, Vec<ContentSpec>)]
         }
         pack_counts.insert(pack_id, specs.len() as u32);
         let (file, mut data) = cp.finalize().map_err(io)?;
-        data.free_data = content_bytes(pack_id as u32 + 4242, free_data_len, Entropy::High);
+        data.free_data = content_bytes(pack_id as u32 + 4242, free_data_len(k), Entropy::High);
         container = file.close(data.uuid).map_err(io)?;
         datas.push(data);
     }
